@@ -1,4 +1,367 @@
 /-
-C17 — placeholder (theorems follow)
+C17 — Conjunction: fresh injective names, rule shape, conflict reporting.
+Theorems about `Fggs.Cj` (FggsModel/Conj.lean), the model of fggs/conjunction.py and unique_label_name.
 -/
 import FggsModel.Conj
+import Mathlib.Tactic.Linarith
+import Mathlib.Data.List.Basic
+import Mathlib.Data.List.Nodup
+
+set_option linter.unusedSimpArgs false
+set_option linter.unusedVariables false
+
+namespace C17
+open Fggs Fggs.Cj
+
+/-! ### `uniqueName` -/
+
+private theorem natToString_inj {a b : Nat} (h : toString a = toString b) : a = b := by
+  rw [Nat.toString_eq_ofList_toDigits, Nat.toString_eq_ofList_toDigits] at h
+  have h' : Nat.toDigits 10 a = Nat.toDigits 10 b := by
+    have := congrArg String.toList h
+    simpa using this
+  have := congrArg (fun l => Nat.ofDigitChars 10 l 0) h'
+  simpa [Nat.ofDigitChars_ten_toDigits] using this
+
+/-- the candidate sequence name, name_1, name_2, … -/
+private def cand (name : String) : Nat → String
+  | 0 => name
+  | k+1 => s!"{name}_{k+1}"
+
+private theorem cand_succ (name : String) (k : Nat) :
+    cand name (k+1) = name ++ ("_" ++ toString (k+1)) := by
+  show toString name ++ toString "_" ++ toString (k+1) = _
+  simp only [String.append_assoc]; rfl
+
+private theorem cand_inj (name : String) : Function.Injective (cand name) := by
+  intro a b h
+  cases a with
+  | zero =>
+    cases b with
+    | zero => rfl
+    | succ b =>
+      rw [cand_succ] at h
+      have := congrArg String.length h
+      simp [cand, String.length_append] at this
+  | succ a =>
+    cases b with
+    | zero =>
+      rw [cand_succ] at h
+      have := congrArg String.length h
+      simp [cand, String.length_append] at this
+    | succ b =>
+      rw [cand_succ, cand_succ, String.append_right_inj, String.append_right_inj] at h
+      exact natToString_inj h
+
+private theorem aux_mem (name : String) (names : List String) :
+    ∀ fuel j, uniqueNameAux name names fuel (j+1) (cand name j) ∈ names →
+      ∀ k, j ≤ k → k ≤ j + fuel → cand name k ∈ names := by
+  intro fuel
+  induction fuel with
+  | zero =>
+    intro j h k h1 h2
+    have : k = j := by omega
+    subst this
+    simpa [uniqueNameAux] using h
+  | succ fuel ih =>
+    intro j h k h1 h2
+    unfold uniqueNameAux at h
+    by_cases hc : cand name j ∈ names
+    · have hc' : names.contains (cand name j) = true := by simpa using hc
+      rw [if_pos hc'] at h
+      rcases Nat.eq_or_lt_of_le h1 with rfl | hlt
+      · exact hc
+      · exact ih (j+1) h k hlt (by omega)
+    · have hc' : ¬ names.contains (cand name j) = true := by simpa using hc
+      rw [if_neg hc'] at h
+      exact absurd h hc
+
+/-- `unique_label_name` terminates within `len(names)+1` rounds and returns a name that is not in use -/
+theorem uniqueName_not_mem (name : String) (names : List String) : uniqueName name names ∉ names := by
+  intro h
+  have hall := aux_mem name names (names.length + 1) 0 h
+  have hsub : (List.range (names.length + 1)).map (cand name) ⊆ names := by
+    intro x hx
+    simp only [List.mem_map, List.mem_range] at hx
+    obtain ⟨k, hk, rfl⟩ := hx
+    exact hall k (Nat.zero_le _) (by omega)
+  have hnd : ((List.range (names.length + 1)).map (cand name)).Nodup :=
+    List.Nodup.map (cand_inj name) List.nodup_range
+  have := hnd.length_le_of_subset hsub
+  simp at this
+
+/-- an unused name is returned unchanged -/
+theorem uniqueName_of_not_mem (name : String) (names : List String) (h : name ∉ names) :
+    uniqueName name names = name := by
+  simp [uniqueName, uniqueNameAux, h]
+
+/-! ### `ntPairs` -/
+
+/-- the fold step of `ntPairs` -/
+private def step (acc : List ((Label × Label) × Label) × List String) (p : Label × Label) :
+    List ((Label × Label) × Label) × List String :=
+  let nm := uniqueName s!"<{p.1.name},{p.2.name}>" acc.2
+  (acc.1 ++ [(p, ⟨nm, p.1.type, false⟩)], acc.2 ++ [nm])
+
+private def ntPairsList (h1 h2 : HRG) : List (Label × Label) :=
+  (h1.labels.filter (!·.terminal)).flatMap (fun a => (h2.labels.filter (!·.terminal)).map (fun b => (a, b)))
+
+private theorem ntPairs_eq (h1 h2 : HRG) :
+    ntPairs h1 h2 = ((ntPairsList h1 h2).foldl step ([], (h1.labels ++ h2.labels).map (·.name))).1 := rfl
+
+private def FreshInv (init : List String) (acc : List ((Label × Label) × Label) × List String) : Prop :=
+  (acc.1.map (·.2.name)).Nodup ∧ (∀ p ∈ acc.1, p.2.name ∈ acc.2) ∧ (∀ p ∈ acc.1, p.2.name ∉ init) ∧
+  init ⊆ acc.2
+
+private theorem step_inv (init : List String) (acc) (p : Label × Label) (h : FreshInv init acc) :
+    FreshInv init (step acc p) := by
+  obtain ⟨h1, h2, h3, h4⟩ := h
+  have hnm := uniqueName_not_mem s!"<{p.1.name},{p.2.name}>" acc.2
+  refine ⟨?_, ?_, ?_, ?_⟩
+  · simp only [step, List.map_append, List.map_cons, List.map_nil]
+    rw [List.nodup_append]
+    refine ⟨h1, by simp, ?_⟩
+    intro a ha b hb
+    simp only [List.mem_singleton] at hb
+    subst hb
+    rintro rfl
+    simp only [List.mem_map] at ha
+    obtain ⟨q, hq, hqe⟩ := ha
+    exact hnm (hqe ▸ h2 q hq)
+  · intro q hq
+    simp only [step, List.mem_append, List.mem_singleton] at hq ⊢
+    rcases hq with hq | rfl
+    · exact Or.inl (h2 q hq)
+    · exact Or.inr rfl
+  · intro q hq
+    simp only [step, List.mem_append, List.mem_singleton] at hq
+    rcases hq with hq | rfl
+    · exact h3 q hq
+    · exact fun hm => hnm (h4 hm)
+  · intro x hx
+    simp only [step, List.mem_append]
+    exact Or.inl (h4 hx)
+
+private theorem foldl_inv (init : List String) (ps : List (Label × Label)) :
+    ∀ acc, FreshInv init acc → FreshInv init (ps.foldl step acc) := by
+  induction ps with
+  | nil => intro acc h; exact h
+  | cons p ps ih => intro acc h; exact ih _ (step_inv init acc p h)
+
+/-- **paired nonterminal names are unique and collide with no existing label** -/
+theorem ntPairs_names_fresh (h1 h2 : HRG) :
+    ((ntPairs h1 h2).map (·.2.name)).Nodup ∧
+    ∀ p ∈ ntPairs h1 h2, p.2.name ∉ (h1.labels ++ h2.labels).map (·.name) := by
+  have := foldl_inv ((h1.labels ++ h2.labels).map (·.name)) (ntPairsList h1 h2)
+    ([], (h1.labels ++ h2.labels).map (·.name)) ⟨by simp, by simp, by simp, fun _ h => h⟩
+  rw [ntPairs_eq]
+  exact ⟨this.1, this.2.2.1⟩
+
+/-- keys are exactly the pairs, in order; every value is a nonterminal of the first component's type -/
+private def TypeInv (acc : List ((Label × Label) × Label) × List String) : Prop :=
+  ∀ p ∈ acc.1, p.2.terminal = false ∧ p.2.type = p.1.1.type
+
+private theorem foldl_inv2 (ps : List (Label × Label)) :
+    ∀ acc, TypeInv acc → TypeInv (ps.foldl step acc) ∧
+      (ps.foldl step acc).1.map (·.1) = acc.1.map (·.1) ++ ps := by
+  induction ps with
+  | nil => intro acc h; exact ⟨h, by simp⟩
+  | cons p ps ih =>
+    intro acc h
+    have h' : TypeInv (step acc p) := by
+      intro q hq
+      simp only [step, List.mem_append, List.mem_singleton] at hq
+      rcases hq with hq | rfl
+      · exact h q hq
+      · exact ⟨rfl, rfl⟩
+    obtain ⟨i1, i2⟩ := ih _ h'
+    refine ⟨i1, ?_⟩
+    rw [List.foldl_cons, i2]
+    simp [step]
+
+/-- every pair of nonterminals gets a (nonterminal) label with the type of the first component -/
+theorem ntPairs_total (h1 h2 : HRG) (a b : Label) (ha : a ∈ h1.labels) (hb : b ∈ h2.labels)
+    (hat : a.terminal = false) (hbt : b.terminal = false) :
+    ∃ l, ntGet (ntPairs h1 h2) a b = some l ∧ l.terminal = false ∧ l.type = a.type := by
+  obtain ⟨i1, i2⟩ := foldl_inv2 (ntPairsList h1 h2) ([], (h1.labels ++ h2.labels).map (·.name))
+    (by intro p hp; simp at hp)
+  replace i1 : ∀ p ∈ ntPairs h1 h2, p.2.terminal = false ∧ p.2.type = p.1.1.type := i1
+  replace i2 : (ntPairs h1 h2).map (·.1) = [] ++ ntPairsList h1 h2 := i2
+  have hmem : (a, b) ∈ (ntPairs h1 h2).map (·.1) := by
+    rw [i2]
+    simp only [List.nil_append, ntPairsList, List.mem_flatMap, List.mem_map,
+      List.mem_filter]
+    exact ⟨a, ⟨ha, by simp [hat]⟩, b, ⟨hb, by simp [hbt]⟩, rfl⟩
+  rw [List.mem_map] at hmem
+  obtain ⟨q, hq, hqe⟩ := hmem
+  cases hf : (ntPairs h1 h2).find? (fun p => p.1 = (a, b)) with
+  | none =>
+    rw [List.find?_eq_none] at hf
+    exact absurd (by simpa using hqe) (hf q hq)
+  | some x =>
+    have hx := List.mem_of_find?_eq_some hf
+    have hxe : x.1 = (a, b) := by simpa using List.find?_some hf
+    obtain ⟨t1, t2⟩ := i1 x hx
+    refine ⟨x.2, by simp [ntGet, hf], t1, ?_⟩
+    rw [t2, hxe]
+
+/-! ### `conjoinRules` -/
+
+private theorem addEdgeChecked_ok {es : List Edge} {e : Edge} {es' : List Edge}
+    (h : addEdgeChecked es e = .ok es') : es' = es ++ [e] := by
+  unfold addEdgeChecked at h
+  split at h
+  · cases h
+  · split at h
+    · cases h
+    · cases h; rfl
+
+private theorem foldlM_addEdge_ok (l : List Edge) :
+    ∀ (acc es : List Edge), l.foldlM addEdgeChecked acc = .ok es → es = acc ++ l := by
+  induction l with
+  | nil => intro acc es h; simp [List.foldlM_nil] at h; cases h; simp
+  | cons e l ih =>
+    intro acc es h
+    rw [List.foldlM_cons] at h
+    cases h1 : addEdgeChecked acc e with
+    | error x => rw [h1] at h; cases h
+    | ok acc' =>
+      rw [h1] at h
+      have := addEdgeChecked_ok h1
+      subst this
+      have := ih _ _ h
+      simpa using this
+
+private theorem mapM_ok {α β} (f : α → Except Err β) (l : List α) :
+    ∀ out, l.mapM f = .ok out → List.Forall₂ (fun x y => f x = .ok y) l out := by
+  induction l with
+  | nil => intro out h; simp at h; cases h; exact .nil
+  | cons a l ih =>
+    intro out h
+    rw [List.mapM_cons] at h
+    cases h1 : f a with
+    | error x => rw [h1] at h; cases h
+    | ok y =>
+      rw [h1] at h
+      cases h2 : l.mapM f with
+      | error x => rw [h2] at h; cases h
+      | ok ys =>
+        rw [h2] at h
+        cases h
+        exact .cons h1 (ih _ h2)
+
+private theorem zip_map_fst_take {α β} (l1 : List α) (l2 : List β) :
+    (l1.zip l2).map Prod.fst = l1.take (l1.zip l2).length := by
+  induction l1 generalizing l2 with
+  | nil => simp
+  | cons a l1 ih =>
+    cases l2 with
+    | nil => simp
+    | cons b l2 => simp [ih l2]
+
+private def pairEdge (m : List ((Label × Label) × Label)) : Edge × Edge → Except Err Edge :=
+  fun (e1, e2) =>
+    match ntGet m e1.label e2.label with
+    | some l =>
+      let i := match e1.id with | .str s => Id.str s | .int n => Id.int (1000000000 + n)
+      (pure (⟨l, e1.nodes, i⟩ : Edge) : Except Err Edge)
+    | none => throw Err.valueError
+
+private theorem pairEdge_ok {m} {p : Edge × Edge} {e : Edge} (h : pairEdge m p = .ok e) :
+    e.nodes = p.1.nodes ∧ ∃ q ∈ m, q.2 = e.label := by
+  obtain ⟨e1, e2⟩ := p
+  simp only [pairEdge] at h
+  cases hg : ntGet m e1.label e2.label with
+  | none => rw [hg] at h; cases h
+  | some l =>
+    rw [hg] at h
+    cases h
+    refine ⟨rfl, ?_⟩
+    unfold ntGet at hg
+    cases hf : m.find? (fun p => p.1 = (e1.label, e2.label)) with
+    | none => rw [hf] at hg; cases hg
+    | some x =>
+      rw [hf] at hg
+      cases hg
+      exact ⟨x, List.mem_of_find?_eq_some hf, rfl⟩
+
+private theorem forall2_pair {m} {l : List (Edge × Edge)} {out : List Edge}
+    (h : List.Forall₂ (fun x y => pairEdge m x = .ok y) l out) :
+    out.length = l.length ∧ (∀ e ∈ out, ∃ q ∈ m, q.2 = e.label) ∧
+    out.map (·.nodes) = (l.map Prod.fst).map (·.nodes) := by
+  induction h with
+  | nil => simp
+  | cons hxy _ ih =>
+    obtain ⟨i1, i2, i3⟩ := ih
+    obtain ⟨p1, p2⟩ := pairEdge_ok hxy
+    refine ⟨by simp [i1], ?_, by simp [i3, p1]⟩
+    intro e he
+    rcases List.mem_cons.1 he with rfl | he
+    · exact p2
+    · exact i2 e he
+
+/-- **shape of a conjoined rule**: the lhs is the pair label, nodes and external nodes are rule 1's, and the
+edges are: one nonterminal edge per (sorted) nonterminal edge of rule 1, carrying rule 1's attachment
+nodes, followed by the terminal edges of rule 1 and of rule 2 -/
+theorem conjoinRules_shape (m : List ((Label × Label) × Label)) (r1 r2 r : Rule)
+    (h : conjoinRules m r1 r2 = .ok r) :
+    ntGet m r1.lhs r2.lhs = some r.lhs ∧ r.nodes = r1.nodes ∧ r.ext = r1.ext ∧
+    ∃ paired : List Edge,
+      r.edges = paired ++ r1.edges.filter (·.label.terminal) ++ r2.edges.filter (·.label.terminal) ∧
+      paired.length = min (r1.edges.filter (!·.label.terminal)).length (r2.edges.filter (!·.label.terminal)).length ∧
+      (∀ e ∈ paired, e.label.terminal = false ∨ ∃ p ∈ m, p.2 = e.label) ∧
+      paired.map (·.nodes) = (((r1.edges.filter (!·.label.terminal)).mergeSort (fun a b => !(idLt b.id a.id))).take paired.length).map (·.nodes) := by
+  unfold conjoinRules at h
+  cases hl : ntGet m r1.lhs r2.lhs with
+  | none => rw [hl] at h; cases h
+  | some lhs =>
+    rw [hl] at h
+    simp only [sortEdges] at h
+    change (do
+      let paired ← List.mapM (pairEdge m) _
+      let edges ← List.foldlM addEdgeChecked [] (paired ++ _)
+      pure (⟨lhs, r1.nodes, edges, r1.ext⟩ : Rule)) = Except.ok r at h
+    cases hp : List.mapM (pairEdge m)
+        (((r1.edges.filter (!·.label.terminal)).mergeSort (fun a b => !(idLt b.id a.id))).zip
+          ((r2.edges.filter (!·.label.terminal)).mergeSort (fun a b => !(idLt b.id a.id)))) with
+    | error x => rw [hp] at h; cases h
+    | ok paired =>
+      rw [hp] at h
+      change (do
+        let edges ← List.foldlM addEdgeChecked [] (paired ++ _)
+        pure (⟨lhs, r1.nodes, edges, r1.ext⟩ : Rule)) = Except.ok r at h
+      cases he : List.foldlM addEdgeChecked []
+          (paired ++ (r1.edges.filter (·.label.terminal) ++ r2.edges.filter (·.label.terminal))) with
+      | error x => rw [he] at h; cases h
+      | ok edges =>
+        rw [he] at h
+        cases h
+        have hedges := foldlM_addEdge_ok _ _ _ he
+        obtain ⟨f1, f2, f3⟩ := forall2_pair (mapM_ok _ _ _ hp)
+        refine ⟨rfl, rfl, rfl, paired, ?_, ?_, ?_, ?_⟩
+        · simp [hedges]
+        · rw [f1]; simp [List.length_zip, List.length_mergeSort]
+        · intro e he'; exact Or.inr (f2 e he')
+        · rw [f3, zip_map_fst_take, f1]
+
+/-! ### `conjoin` -/
+
+/-- **a genuine terminal-label conflict is reported with ValueError** -/
+theorem conjoin_reports_conflict (h1 h2 : HRG) (a b : Label) (ha : a ∈ h1.labels) (hb : b ∈ h2.labels)
+    (hn : a.name = b.name) (hne : a ≠ b) (hat : a.terminal = true) (hbt : b.terminal = true) :
+    conjoin h1 h2 = .error .valueError := by
+  have hc : (h1.labels.any (fun a => h2.labels.any (fun b => a.name = b.name && a ≠ b && a.terminal && b.terminal))) = true := by
+    simp only [List.any_eq_true]
+    exact ⟨a, ha, b, hb, by simp [hn, hne, hat, hbt]⟩
+  unfold conjoin
+  rw [if_pos hc]
+  rfl
+
+/-- non-vacuity / the clash example of the property text: X + "Y,Z" and "X,Y" + Z get different names -/
+example : let X : Label := ⟨"X", [], false⟩; let YZ : Label := ⟨"Y,Z", [], false⟩
+          let XY : Label := ⟨"X,Y", [], false⟩; let Z : Label := ⟨"Z", [], false⟩
+          (ntPairs ⟨X, [X, XY], []⟩ ⟨Z, [YZ, Z], []⟩).map (·.2.name)
+            = ["<X,Y,Z>", "<X,Z>", "<X,Y,Y,Z>", "<X,Y,Z>_1"] := by
+  decide
+
+end C17
